@@ -641,7 +641,7 @@ func (g *Graph) EdgeFacts(b *cfg.Block, succ int) []Fact {
 			return nil
 		}
 		if sw.Tag == nil {
-			return Facts(c, succ == 0)
+			return g.expandAll(Facts(c, succ == 0))
 		}
 		eq := &ast.BinaryExpr{X: sw.Tag, Op: token.EQL, Y: c, OpPos: c.Pos()}
 		return []Fact{{eq, succ == 0}}
